@@ -656,6 +656,11 @@ class InterpOracleUnit(Unit):
                 c["y"] = [a * v + b for v in x]
                 c["affine"] = [a, b]
             cases.append(c)
+        # the same array objects asked twice, their contents rewritten in place between the two calls (the second call is judged)
+        for i, c in enumerate(cases):
+            if i % 4 == 0:
+                c["kw"] = {}
+                c["prior_edit"] = ["y", "x", "both"][(i // 4) % 3]
         return cases
 
     def run(self, c):
@@ -679,6 +684,18 @@ class InterpOracleUnit(Unit):
             import warnings
             with warnings.catch_warnings():
                 warnings.simplefilter("ignore")
+                if c.get("prior_edit"):
+                    if c["prior_edit"] in ("y", "both"):
+                        y[:] = y[::-1] * 2.0 - 5.0
+                    if c["prior_edit"] in ("x", "both"):
+                        x[:] = x * 2.0 - 1.0
+                    try:
+                        P.interpolate(x, y, nx, method=c["method"])
+                    except Exception:
+                        pass
+                    x[:] = c["x"]
+                    y[:] = c["y"]
+                    del calls[:]
                 r = P.interpolate(x, y, nx, method=c["method"], **c["kw"])
                 if c["method"] == "cubic":
                     exp = SI.CubicSpline(x, y, **c["kw"])(nx)
@@ -694,7 +711,7 @@ class InterpOracleUnit(Unit):
         F = []
 
         def fail(aspect, what):
-            F.append(Failure(aspect=aspect, what="interpolate(%s, %s): %s (x=%s y=%s new_x=%s)" % (c["method"], c["kw"], what, c["x"], c["y"], c["new_x"]),
+            F.append(Failure(aspect=aspect, what="interpolate(%s, %s)%s: %s (x=%s y=%s new_x=%s)" % (c["method"], c["kw"], " [second call on the same array objects, %s rewritten in place after the first]" % c["prior_edit"] if c.get("prior_edit") else "", what, c["x"], c["y"], c["new_x"]),
                              signature={"aspect": aspect, "method": c["method"]}))
         if "exc" in o:
             fail("raises", o["exc_msg"])
@@ -728,4 +745,4 @@ class InterpOracleUnit(Unit):
         return F
 
     def label(self, c, o):
-        return c["method"] + (":kw" if c["kw"] else "")
+        return c["method"] + (":kw" if c["kw"] else "") + (":again-after-edit" if c.get("prior_edit") else "")
